@@ -73,6 +73,7 @@ func (c *matcherCompiler) compileIdent(v reflect.Value) Matcher {
 		return c.compileGeneric(v)
 	}
 
+	c.metavars++
 	return MetavarMatcher{
 		Fset:        c.fset,
 		Name:        name,
